@@ -1538,8 +1538,9 @@ class Chemical:
         self._Tt = Tt or triple_point_temperature(CAS)
 
         # Energy
-        self._Hfus = heat_of_fusion(CAS) or 0. if Hfus is None else Hfus
-        self._Sfus = None if Hfus is None or Tm is None else Hfus / Tm 
+        self._Hfus = Hfus = heat_of_fusion(CAS) or 0. if Hfus is None else Hfus
+        Tm = self._Tm
+        self._Sfus = None if Hfus is None or not Tm else Hfus / Tm
         
         # Other
         self._dipole = dipole or dipole_moment(CAS)
